@@ -422,11 +422,17 @@ impl ObjClass {
 impl GcManaged for ObjClass {
     fn mark(&self) {
         self.metaclass.mark();
+        if let Some(superclass) = self.superclass.as_ref() {
+            superclass.mark();
+        }
         self.methods.mark();
     }
 
     fn blacken(&self) {
         self.metaclass.blacken();
+        if let Some(superclass) = self.superclass.as_ref() {
+            superclass.blacken();
+        }
         self.methods.blacken();
     }
 }
